@@ -262,6 +262,11 @@ type checkCtx struct {
 	Workload string      // sched-random | sched-dfs | stress | multiproc | shared-handle
 	Detail   interface{} // seed, schedule number, scenario, interleaving ...
 	Timeout  time.Duration
+	// Prefix is put in front of every violation signature of this history ("redis ", "redis lock-expired: ").
+	Prefix string
+	// ExtraNoop: error texts (substring match) that the WORKLOAD itself injected into lock acquisition (dropped connection on the
+	// lock SET, lock wait timed out behind a leaked lock key): such an operation failed before its write cycle began and is a no-op.
+	ExtraNoop []string
 }
 
 func renderOps(ops []*opRec) []string {
@@ -354,7 +359,15 @@ func checkHistory(r *ev.Run, ops []*opRec, finals map[string]ringState, ctx chec
 		for k, v := range extra {
 			d[k] = v
 		}
-		r.Violation(sig, d)
+		r.Violation(ctx.Prefix+sig, d)
+	}
+	injected := func(msg string) bool {
+		for _, e := range ctx.ExtraNoop {
+			if strings.Contains(msg, e) {
+				return true
+			}
+		}
+		return false
 	}
 	// per-operation checks
 	var maxClock int64
@@ -417,7 +430,12 @@ func checkHistory(r *ev.Run, ops []*opRec, finals map[string]ringState, ctx chec
 		} else {
 			r.Count("v2_failed_"+o.Kind, 1)
 			r.SetAdd("v2_failure_texts", o.Kind+": "+errClass(o.Err))
-			if !errorAllowed(o.Kind, o.Err) {
+			if ctx.Prefix != "" && strings.Contains(o.Err, "i/o timeout") {
+				// go-redis' client-side timeout (wall clock) on a saturated machine; the outcome of the operation is unknown
+				r.Inconclusive("redis v2: a Redis command timed out on the client side (wall-clock timeout of go-redis; machine overloaded): workload=" + ctx.Workload)
+			} else if injected(o.Err) {
+				r.Count("v2_failed_by_injected_lock_fault", 1)
+			} else if !errorAllowed(o.Kind, o.Err) {
 				report(fmt.Sprintf("v2 %s failed with an error that is not a concurrency refusal: %s: backend=%s", o.Kind, errClass(o.Err), ctx.Backend),
 					map[string]interface{}{"op": o.String(), "ring_history": renderOps(byRing[o.Ring])})
 			}
